@@ -148,7 +148,7 @@ fn arrival_timeout() -> Duration {
         std::env::var("RIPVERIF_T_ARRIVE_MS")
             .ok()
             .and_then(|v| v.parse().ok())
-            .unwrap_or(25),
+            .unwrap_or(80),
     )
 }
 
